@@ -1,6 +1,7 @@
 package disk
 
 import (
+	"fmt"
 	"io"
 	"os"
 	"path/filepath"
@@ -18,12 +19,23 @@ func Copy(src, dest string) error {
 
 // CopyDirectory copy a directory and sub-direcotories and files on local files system.
 func CopyDirectory(src, dest string) error {
+	if info, err := os.Stat(src); err != nil {
+		return err
+	} else if !info.IsDir() {
+		return fmt.Errorf("%s is not a directory", src)
+	}
 	return filepath.Walk(src, func(path string, info os.FileInfo, err error) error {
-		subPath := path + "/" + info.Name()
-		if info.IsDir() {
-			return MkdirAll(subPath, filesystem.DefaultUnixDirMode)
+		if err != nil {
+			return err
 		}
-		return CopyFile(src+subPath, dest+subPath)
+		subPath, err := filepath.Rel(src, path)
+		if err != nil {
+			return err
+		}
+		if info.IsDir() {
+			return MkdirAll(filepath.Join(dest, subPath), filesystem.DefaultUnixDirMode)
+		}
+		return CopyFile(path, filepath.Join(dest, subPath))
 	})
 }
 
@@ -34,6 +46,11 @@ func CopyFile(src, dst string) error {
 		return err
 	}
 	defer s.Close()
+	if info, err := s.Stat(); err != nil {
+		return err
+	} else if info.IsDir() {
+		return fmt.Errorf("%s is a directory", src)
+	}
 	d, err := os.Create(dst)
 	if err != nil {
 		return err
